@@ -1,19 +1,150 @@
 /-
   C07 — Axes and traversals obey the XPath document-order laws.  Property theorems only.
+
+  Nodes are paths of raw child indices (`Path`); `Valid t p` says `p` names a node of `t`.
+  Specification vocabulary (Lemmas/AxesSpec.lean, AxesPre.lean):
+    `allPre t`   all nodes of `t` in document order (pre-order of the raw child lists)
+    `pre t`      the normal nodes in document order  (`allPre t` filtered by `is_normal`)
+    `docLt p q`  document order on paths (= the lexicographic `<`, a proper prefix first)
+    `p.isPrefixOf q`   `p` is an ancestor-or-self of `q`
+    `wf t`       non-normal nodes are leaves and no normal child precedes a non-normal one
+  All theorems hold for every tree and every node, without bounds.
 -/
-import XotModel.Model.Axes
+import XotModel.Lemmas.AxesPartition
 
 namespace XotModel.Props
 open XotModel XotModel.Axes
 
+/-! ## Document order -/
+
+/-- `docLt` is the lexicographic order on index paths. -/
+theorem C07_docLt_iff_lt (p q : Path) : docLt p q = true ↔ p < q := docLt_iff_lt p q
+
+/-- `allPre t` lists exactly the nodes of `t`, strictly increasing in document order. -/
+theorem C07_allPre (t : Tree) :
+    (∀ p, p ∈ allPre t ↔ Valid t p) ∧ (allPre t).Pairwise (fun a b => docLt a b = true) :=
+  ⟨mem_allPre_iff t, allPre_sorted t⟩
+
+/-- `pre t` lists exactly the normal nodes, strictly increasing in document order. -/
+theorem C07_pre (t : Tree) :
+    (∀ p, p ∈ pre t ↔ Valid t p ∧ isNormalAt t p = true) ∧
+    (pre t).Pairwise (fun a b => docLt a b = true) ∧ (pre t).Nodup :=
+  ⟨mem_pre_iff t, pre_sorted t, pre_nodup t⟩
+
+/-! ## The big axes equal their document-order specifications -/
+
+/-- `descendants` (= `axis(DescendantOrSelf)`): normal nodes at or below `p`, document order.
+    Any tree, any node (also attribute / namespace nodes). -/
+theorem C07_descendants {t : Tree} {p : Path} (h : Valid t p) :
+    descendants t p = (pre t).filter (fun q => p.isPrefixOf q) ∧
+    axis t .descendantOrSelf p = descendants t p ∧
+    allDescendants t p = (allPre t).filter (fun q => p.isPrefixOf q) :=
+  ⟨descendants_eq h, rfl, arenaDescendants_eq h⟩
+
+/-- `axis(Descendant)` at a normal node: normal nodes strictly below `p`, document order. -/
+theorem C07_axis_descendant {t : Tree} {p : Path} (h : Valid t p) (hn : isNormalAt t p = true) :
+    axis t .descendant p = (pre t).filter (fun q => p.isPrefixOf q && q != p) :=
+  axis_descendant_spec h hn
+
+/-- `axis(Descendant)` at an attribute / namespace node of a well-formed tree: nothing. -/
+theorem C07_axis_descendant_abnormal {t : Tree} {p : Path} (hw : wf t = true) (h : Valid t p)
+    (hn : isNormalAt t p = false) : axis t .descendant p = [] :=
+  (axis_descendant_abnormal hw h hn).1
+
+/-- The `Following` iterator: `following` (= `axis(Following)`) yields the normal nodes after `p`
+    in document order that are not below `p`, in document order; `all_following` the same over
+    all nodes. Any tree, any start node (also attribute / namespace nodes); the fuel (node
+    count) the model gives the machine is adequate. -/
+theorem C07_following {t : Tree} {p : Path} (h : Valid t p) :
+    following t p = (pre t).filter (fun q => docLt p q && !p.isPrefixOf q) ∧
+    axis t .following p = following t p ∧
+    allFollowing t p = (allPre t).filter (fun q => docLt p q && !p.isPrefixOf q) :=
+  ⟨following_eq h, rfl, allFollowing_eq h⟩
+
+/-- `preceding` (= `axis(Preceding)`): the normal nodes before `p` that are not ancestors of
+    `p`, in reverse document order. Well-formed trees, any node. -/
+theorem C07_preceding {t : Tree} {p : Path} (hw : wf t = true) (h : Valid t p) :
+    preceding t p = ((pre t).filter (fun q => docLt q p && !q.isPrefixOf p)).reverse ∧
+    axis t .preceding p = preceding t p :=
+  ⟨preceding_eq hw h, rfl⟩
+
+/-- `axis(Ancestor)`: the proper prefixes of `p`, nearest first — for every node, attribute and
+    namespace nodes included (they have a parent and ancestors); in a well-formed tree these
+    are the normal nodes that are proper ancestors, in reverse document order. -/
+theorem C07_axis_ancestor {t : Tree} {p : Path} (hw : wf t = true) (h : Valid t p) :
+    axis t .ancestor p = ((pre t).filter (fun q => q.isPrefixOf p && q != p)).reverse ∧
+    axis t .ancestorOrSelf p = p :: axis t .ancestor p ∧ ancestors p = axis t .ancestorOrSelf p := by
+  refine ⟨axis_ancestor_spec hw h, ?_, rfl⟩
+  rw [axis_ancestor_eq]; exact ancestors_eq p
+
+/-! ## Partition law -/
+
+/-- For a normal node `n`: ancestors, `n`, descendants, preceding and following together are
+    exactly the normal nodes of the tree, each once. -/
+theorem C07_partition {t : Tree} {p : Path} (hw : wf t = true) (h : Valid t p)
+    (hn : isNormalAt t p = true) :
+    (axis t .ancestor p ++ (p :: axis t .descendant p) ++ axis t .preceding p ++
+      axis t .following p).Perm (pre t) :=
+  partition_normal hw h hn
+
+/-- Pairwise disjointness (and no repetition inside a part): the concatenation has no duplicates. -/
+theorem C07_partition_disjoint {t : Tree} {p : Path} (hw : wf t = true) (h : Valid t p)
+    (hn : isNormalAt t p = true) :
+    (axis t .ancestor p ++ (p :: axis t .descendant p) ++ axis t .preceding p ++
+      axis t .following p).Nodup :=
+  (partition_normal hw h hn).nodup_iff.mpr (pre_nodup t)
+
+/-- For an attribute or namespace node the four axes alone partition the normal nodes. -/
+theorem C07_partition_abnormal {t : Tree} {p : Path} (hw : wf t = true) (h : Valid t p)
+    (hn : isNormalAt t p = false) :
+    (axis t .ancestor p ++ axis t .descendant p ++ axis t .preceding p ++ axis t .following p).Perm (pre t) ∧
+    (axis t .ancestor p ++ axis t .descendant p ++ axis t .preceding p ++ axis t .following p).Nodup :=
+  ⟨partition_abnormal hw h hn, (partition_abnormal hw h hn).nodup_iff.mpr (pre_nodup t)⟩
+
+/-- Descendants and following come in document order, ancestors and preceding in reverse. -/
+theorem C07_order {t : Tree} {p : Path} (hw : wf t = true) (h : Valid t p) :
+    (axis t .descendantOrSelf p).Pairwise (fun a b => docLt a b = true) ∧
+    (axis t .following p).Pairwise (fun a b => docLt a b = true) ∧
+    (axis t .ancestor p).Pairwise (fun a b => docLt b a = true) ∧
+    (axis t .preceding p).Pairwise (fun a b => docLt b a = true) := by
+  refine ⟨?_, ?_, ?_, ?_⟩
+  · show (descendants t p).Pairwise _
+    rw [descendants_eq h]; exact (pre_sorted t).filter _
+  · show (following t p).Pairwise _
+    rw [following_eq h]; exact (pre_sorted t).filter _
+  · rw [axis_ancestor_spec hw h, List.pairwise_reverse]; exact (pre_sorted t).filter _
+  · show (preceding t p).Pairwise _
+    rw [preceding_eq hw h, List.pairwise_reverse]; exact (pre_sorted t).filter _
+
+/-! ## Misc -/
+
 theorem C07_root (p : Path) : root p = .ok [] := by
-  have h : ∀ r : List Nat, (ancestorsR r).getLast? = some [] := by
-    intro r; induction r with
-    | nil => rfl
-    | cons i r ih =>
-      cases r with
-      | nil => rfl
-      | cons j r => simpa [ancestorsR, List.getLast?_cons_cons] using ih
-  simp [root, ancestors, h]
+  have : (ancestors p).getLast? = some [] := by
+    rw [ancestors_eq]
+    cases p with
+    | nil => simp [ancRel]
+    | cons i p =>
+      simp only [ancRel, List.reverse_cons]
+      rw [← List.cons_append, List.getLast?_concat]
+  simp [root, this]
+
+/-! ## Non-vacuity -/
+
+/-- `<a xmlns:p=".." x=".."><b><c/></b>text<d/></a>` in a document, with a comment after. -/
+def exTree : Tree :=
+  .node .document [
+    .node (.element 2) [
+      .node (.namespace 2 2) [], .node (.attribute 3 ['v']) [],
+      .node (.element 3) [.node (.element 4) []],
+      .node (.text ['t']) [],
+      .node (.element 5) []],
+    .node (.comment ['c']) []]
+
+example : wf exTree = true := by decide
+example : Valid exTree [0, 2] ∧ isNormalAt exTree [0, 2] = true := by decide
+example : Valid exTree [0, 1] ∧ isNormalAt exTree [0, 1] = false := by decide
+example : axis exTree .following [0, 2] = [[0, 3], [0, 4], [1]] := by decide
+example : axis exTree .preceding [0, 4] = [[0, 3], [0, 2, 0], [0, 2]] := by decide
+example : axis exTree .following [0, 1] = [[0, 2], [0, 2, 0], [0, 3], [0, 4], [1]] := by decide
 
 end XotModel.Props
